@@ -3,12 +3,130 @@
    [req] is Rdata::equals, assumed transitive.  A zone is what HashMapTreeZone::new followed by any
    sequence of adds produces ([zone_build]; rejected adds are part of the history). *)
 From QV Require Import Base.Res Base.Octets Gen.ZoneConsts Model.ZoneTree Spec.ZoneLookupS
-  Model.RdataBuf Proofs.ZoneRrsetP Proofs.ZoneTopP Proofs.ZoneIterP Proofs.ZoneIterSmP Proofs.ZoneStoreP Proofs.RdataBufP.
+  Model.RdataBuf Proofs.ZoneRrsetP Proofs.ZoneTopP Proofs.ZoneIterP Proofs.ZoneIterSmP Proofs.ZoneStoreP Proofs.RdataBufP
+  Model.ZoneReal Spec.ZoneRealS Proofs.ZoneRealP.
+From QV Require Model.RdataM Spec.RdataEqS Model.RdataSetM Proofs.RdataSetP.
 
 (* the shared runner (Extract/ExZone.v) also extracts the validation model: keep it in this cone so
    that `make Props/...vo` rebuilds everything the extraction loads *)
 From QV Require Model.ZoneValid Spec.ZoneValidS.
 
+
+(* ================================================================================================
+   The theorems for the REAL Rdata::equals: model side [req_real] = Model/RdataM.v [equals] (C19's model
+   of Rdata::equals), specification side [spec_req] = Spec/RdataEqS.v [spec_equals] (the RFC
+   characterisation).  Only hypothesis on the records: every RDATA is an octet string (u8 elements).
+   Nothing is assumed about Rdata::equals. *)
+
+Theorem c20_req_real_is_equals : forall c t a b, wf_bytes a -> wf_bytes b ->
+  RdataM.equals c t a b = Ok (req_real c t a b) /\ req_real c t a b = RdataEqS.spec_equals c t a b.
+Proof. intros c t a b Ha Hb. split; [apply equals_req_real|apply req_real_spec]; assumption. Qed.
+
+Theorem c20_add_result_real : forall apex cls wide recs z, Forall wf_record recs ->
+  zone_build req_real (zone_new apex cls wide) recs = Some z ->
+  forall r, wf_record r ->
+  exists z', zone_add req_real z r = Ok (z', add_verdict apex cls (accepted apex cls recs) r) /\
+             (add_verdict apex cls (accepted apex cls recs) r <> None -> z' = z) /\
+             zone_build req_real (zone_new apex cls wide) (recs ++ [r]) = Some z'.
+Proof. exact real_add_result. Qed.
+
+Theorem c20_iter_by_node_real : forall apex cls wide recs z, Forall wf_record recs ->
+  zone_build req_real (zone_new apex cls wide) recs = Some z ->
+  let R := accepted apex cls recs in
+  NoDup (map (fun nd => lc (fst nd)) (zone_iter_by_node z)) /\
+  (forall m, In m (map (fun nd => lc (fst nd)) (zone_iter_by_node z)) <->
+             is_suffixb (lc apex) m && exists_name apex R m = true) /\
+  (forall n d, In (n, d) (zone_iter_by_node z) -> d = spec_rrsets spec_req cls R (lc n)).
+Proof. exact real_iter_nodes. Qed.
+
+Theorem c20_iter_by_rrset_real : forall apex cls wide recs z, Forall wf_record recs ->
+  zone_build req_real (zone_new apex cls wide) recs = Some z ->
+  let R := accepted apex cls recs in
+  (forall n rs, In (n, rs) (zone_iter_by_rrset z) ->
+     spec_rrset spec_req cls R (lc n) (rs_type rs) = Some rs) /\
+  (forall m ty rs, is_suffixb (lc apex) m = true -> spec_rrset spec_req cls R m ty = Some rs ->
+     exists n, lc n = m /\ In (n, rs) (zone_iter_by_rrset z)) /\
+  NoDup (map (fun x => (lc (fst x), rs_type (snd x))) (zone_iter_by_rrset z)).
+Proof. exact real_iter_rrsets. Qed.
+
+Theorem c20_iter_names_spelled_real : forall apex cls wide recs z, Forall wf_record recs ->
+  zone_build req_real (zone_new apex cls wide) recs = Some z ->
+  (forall n d, In (n, d) (zone_iter_by_node z) -> spelled apex (accepted apex cls recs) (lc n) = n) /\
+  (forall n rs, In (n, rs) (zone_iter_by_rrset z) -> spelled apex (accepted apex cls recs) (lc n) = n).
+Proof. exact real_iter_names_spelled. Qed.
+
+Theorem c20_soa_ns_real : forall apex cls wide recs z, Forall wf_record recs ->
+  zone_build req_real (zone_new apex cls wide) recs = Some z ->
+  let R := accepted apex cls recs in
+  zone_soa z = single_of spec_req cls R (lc apex) 6 /\ zone_ns z = single_of spec_req cls R (lc apex) 2 /\
+  exists d, hd_error (zone_iter_by_node z) = Some (zone_name z, d) /\
+            zone_soa z = option_map to_single (rr_lookup TYPE_SOA d) /\
+            zone_ns z = option_map to_single (rr_lookup TYPE_NS d).
+Proof. exact real_soa_ns. Qed.
+
+(* what an RRset of the specification holds, in C19's terms: the RDATAs of the accepted records of that
+   owner and type, reduced by [nodup_by spec_equals] — the function c19_set proves RdataSetOwned::from_iter
+   computes and c19_set_meaning explains (subsequence in insertion order, members pairwise unequal,
+   every input has an equal member, each member is the first of its equality class) *)
+Theorem c20_rrset_is_c19_set : forall cls R m ty rs,
+  spec_rrset spec_req cls R m ty = Some rs ->
+  rs_type rs = ty /\
+  rs_rdatas rs = RdataEqS.nodup_by (RdataEqS.spec_equals cls ty) [] (map r_rdata (records_at R m ty)).
+Proof. exact spec_rrset_nodup_by. Qed.
+
+(* the zone model keeps an RdataSetOwned as the list of its RDATAs; for the real equality that list-level
+   insert IS C19's octet-buffer model of RdataSetOwned::insert (Model/RdataSetM.v: Vec<u8> with u16 length
+   prefixes in either byte order, the loop over the members calling Rdata::equals with early exit): on a
+   buffer holding [kept], insert of [r] never fails, returns the encoding of [rdataset_insert req_real kept r]
+   and the flag "was inserted"; iterating that buffer yields the list back.  (RDATA of at most 65535 octets:
+   the invariant of the Rdata type.) *)
+Theorem c20_rdataset_real_buffer : forall be c t kept r,
+  Forall RdataSetP.small kept -> Forall wf_bytes kept -> RdataSetP.small r -> wf_bytes r ->
+  RdataSetM.set_insert be c t (RdataSetP.inner_of be kept) r =
+    Ok (RdataSetP.inner_of be (rdataset_insert req_real c t kept r),
+        negb (existsb (fun ex => req_real c t r ex) kept)) /\
+  RdataSetM.set_iter be (RdataSetP.inner_of be (rdataset_insert req_real c t kept r)) =
+    rdataset_insert req_real c t kept r.
+Proof.
+  intros be c t kept r Hs Hw Hr Hwr. split.
+  - apply rdataset_insert_is_buffer; assumption.
+  - apply rdataset_insert_buffer_iter; assumption.
+Qed.
+
+(* every RDATA stored in the zone is an octet string again (so the hypotheses of C19 hold for whatever
+   is compared next) *)
+Theorem c20_stored_rdata_real : forall apex cls wide recs z, Forall wf_record recs ->
+  zone_build req_real (zone_new apex cls wide) recs = Some z ->
+  forall n d rs rd, In (n, d) (zone_iter_by_node z) -> In rs d -> In rd (rs_rdatas rs) -> wf_bytes rd.
+Proof. exact real_build_wf. Qed.
+
+(* Non-vacuity with the real equality: SOA twice with MNAME/RNAME in other letter case (one RDATA), CH-class-
+   free IN zone with SRV _x: same target in other case (one RDATA in class IN), NS valid / NS + junk in two
+   cases (octet-wise: both junk variants kept). *)
+Example c20_example_real :
+  let c := [99%N] in
+  let soa l := ([2; l; 115; 1; 99; 0; 1; 114; 1; 99; 0] ++ repeat 0 20)%N in
+  let srv l := [0; 1; 0; 2; 0; 53; 2; l; 115; 1; 99; 0]%N in
+  let ns l := [2; l; 115; 1; 99; 0]%N in
+  let recs :=
+    [ mk_record [c] 6 1 3600 (soa 110%N); mk_record [c] 6 1 3600 (soa 78%N);
+      mk_record [c] 33 1 3600 (srv 110%N); mk_record [c] 33 1 3600 (srv 78%N);
+      mk_record [c] 2 1 3600 (ns 110%N); mk_record [c] 2 1 3600 (ns 78%N);
+      mk_record [c] 2 1 3600 (ns 110%N ++ [9%N]); mk_record [c] 2 1 3600 (ns 78%N ++ [9%N]) ] in
+  Forall wf_record recs /\
+  exists z, zone_build req_real (zone_new [c] 1 false) recs = Some z /\
+    map snd (zone_iter_by_rrset z) =
+      [mk_rrset 2 3600 [ns 110%N; ns 110%N ++ [9%N]; ns 78%N ++ [9%N]];
+       mk_rrset 6 3600 [soa 110%N]; mk_rrset 33 3600 [srv 110%N]] /\
+    zone_soa z = Some (3600%N, [soa 110%N]).
+Proof.
+  cbv zeta. split.
+  - repeat constructor; apply wf_bytesb_spec; reflexivity.
+  - eexists. split; [vm_compute; reflexivity|]. vm_compute. repeat split.
+Qed.
+
+(* ================================================================================================
+   Parametric library versions: any RDATA equality that is transitive per (class, type). *)
 Definition req_transitive (req : N -> N -> bytes -> bytes -> bool) : Prop :=
   forall cls ty a b c, req cls ty a b = true -> req cls ty b c = true -> req cls ty a c = true.
 
@@ -123,6 +241,15 @@ Example c20_example :
     zone_soa z = Some (3600%N, [[0]%N]) /\ zone_ns z = None.
 Proof. cbv zeta. eexists. split; [vm_compute; reflexivity|]. vm_compute. repeat split. Qed.
 
+Print Assumptions c20_req_real_is_equals.
+Print Assumptions c20_add_result_real.
+Print Assumptions c20_iter_by_node_real.
+Print Assumptions c20_iter_by_rrset_real.
+Print Assumptions c20_iter_names_spelled_real.
+Print Assumptions c20_soa_ns_real.
+Print Assumptions c20_rrset_is_c19_set.
+Print Assumptions c20_rdataset_real_buffer.
+Print Assumptions c20_stored_rdata_real.
 Print Assumptions c20_add_result.
 Print Assumptions c20_add_ok_iff.
 Print Assumptions c20_add_err_kind.
